@@ -12,6 +12,30 @@ from . import core, r_mpt
 from .core import walk, key, const_val
 
 
+def direct_writes_of(elem):
+    """variable ids that are themselves assigned / incremented (not objects reached through them)"""
+    out = set()
+    for n, parents in walk(elem):
+        k = n.get("k")
+        if k == "bin" and (n["op"] == "=" or (n["op"].endswith("=") and n["op"] not in ("==", "!=", "<=", ">="))):
+            r = core.strip_casts(n["x"])
+            if r is not None and r.get("k") == "ref":
+                out.add(r["id"])
+        elif k == "un" and n["op"] in ("post++", "post--", "pre++", "pre--"):
+            r = core.strip_casts(n["e"])
+            if r is not None and r.get("k") == "ref":
+                out.add(r["id"])
+        elif k == "call":
+            for a in n["args"]:
+                a0 = core.strip_casts(a)
+                if a0.get("k") == "un" and a0["op"] == "&" and core.strip_casts(a0["e"]).get("k") == "ref":
+                    out.add(core.strip_casts(a0["e"])["id"])
+        elif k == "decl":
+            for v in n["vars"]:
+                out.add(v["id"])
+    return out
+
+
 def writes_of(elem):
     """variable ids written by an element (assignment, ++/--, compound assignment, &x passed to a call)"""
     out = set()
@@ -38,7 +62,7 @@ def writes_of(elem):
     return out
 
 
-def written_between(fn, branch_block, succ, site, var_ids):
+def written_between(fn, branch_block, succ, site, var_ids, direct_only=False):
     """is any var written on a path from succ (after the branch) to the site that does
     not pass through the branch block again?"""
     sb, si = site
@@ -60,7 +84,7 @@ def written_between(fn, branch_block, succ, site, var_ids):
         elems = fn.blocks[b].elems
         lim = len(elems) if (b != sb or cyc) else si
         for e in elems[:lim]:
-            if writes_of(e) & var_ids:
+            if (direct_writes_of(e) if direct_only else writes_of(e)) & var_ids:
                 return True
     return False
 
